@@ -375,6 +375,8 @@ def _atom(e: ast.expr):
         l, r = src(e.left), src(e.comparators[0])
         neg = {ast.NotIn: ast.In, ast.IsNot: ast.Is, ast.NotEq: ast.Eq}
         if type(op) in neg:
+            if type(op) in (ast.IsNot, ast.NotEq):
+                l, r = sorted([l, r])
             return (f"{l} {neg[type(op)].__name__} {r}", False)
         if isinstance(op, (ast.Eq, ast.Is)) :
             a, b = sorted([l, r])
